@@ -2,15 +2,16 @@
 # run the property's check against a seeded change applied to /repo, then undo it
 # usage: seed_run.sh C01 a [tier]
 id=$1; v=$2; tier=${3:-quick}
-dir=/verif/seeded/$id-$v
-cd /verif
+root=$(cd "$(dirname "$0")/.." && pwd)
+dir=$root/seeded/$id-$v
+cd $root
 if [ -n "$(git -C ${VERIF_REPO:-/repo} status --porcelain)" ]; then echo "/repo not clean"; exit 2; fi
 git -C ${VERIF_REPO:-/repo} apply $dir/patch.diff || { echo "$id $v: patch does not apply"; exit 2; }
 # the evidence file of a run against a seeded change must not replace the one of the real tree
-cp evidence/$id.json /verif/build/evidence_$id.keep 2>/dev/null
+cp evidence/$id.json $root/build/evidence_$id.keep 2>/dev/null
 out=$(./check $id --tier $tier 2>&1 | grep -v "^WARNING\|^KNOWN-FINDING" | tail -2 | tr '\n' ' ')
 rc=$?
 git -C ${VERIF_REPO:-/repo} checkout -- .
 git -C ${VERIF_REPO:-/repo} clean -fdq
-[ -f /verif/build/evidence_$id.keep ] && mv /verif/build/evidence_$id.keep evidence/$id.json
+[ -f $root/build/evidence_$id.keep ] && mv $root/build/evidence_$id.keep evidence/$id.json
 echo "$id-$v [$tier]: $out"
